@@ -669,7 +669,7 @@ func executorInsertObject(ctx *ExecutionContext, target map[string]interface{}, 
 		if newValue, ok := value.(map[string]interface{}); ok {
 			for k, v := range newValue {
 				resultLock.Lock()
-				targetObj[k] = v
+				targetObj[k] = executorMergeValues(targetObj[k], v)
 				resultLock.Unlock()
 			}
 		}
@@ -681,11 +681,39 @@ func executorInsertObject(ctx *ExecutionContext, target map[string]interface{}, 
 
 		for key, value := range targetObj {
 			resultLock.Lock()
-			target[key] = value
+			target[key] = executorMergeValues(target[key], value)
 			resultLock.Unlock()
 		}
 	}
 	return nil
+}
+
+// executorMergeValues combines a value that is already part of the result with one that a later step
+// provides for the same place. Several steps can contribute to the same object or list (each with its own
+// fields) so objects are merged key by key and lists element by element; anything else is replaced.
+func executorMergeValues(existing interface{}, incoming interface{}) interface{} {
+	switch existing := existing.(type) {
+	case map[string]interface{}:
+		incomingObj, ok := incoming.(map[string]interface{})
+		if !ok {
+			return incoming
+		}
+		for key, value := range incomingObj {
+			existing[key] = executorMergeValues(existing[key], value)
+		}
+		return existing
+	case []interface{}:
+		incomingList, ok := incoming.([]interface{})
+		if !ok || len(incomingList) != len(existing) {
+			return incoming
+		}
+		for i, value := range incomingList {
+			existing[i] = executorMergeValues(existing[i], value)
+		}
+		return existing
+	default:
+		return incoming
+	}
 }
 
 type extractorPointData struct {
